@@ -294,6 +294,18 @@ def _cached_properties(ci: ClassInfo):
                 both = tested & assigned
                 if both:
                     out[name] = sorted(both)[0]
+        if name not in out:
+            # the cache may be kept through a helper that is handed the NAME of the private attribute:
+            # return self._cached(..., '_qubit_index', ...) with _qubit_index initialised in __init__
+            init = ci.methods.get('__init__')
+            init_attrs = {t.attr for t in ast.walk(init) if isinstance(t, ast.Attribute) and isinstance(t.ctx, ast.Store)
+                          and isinstance(t.value, ast.Name) and t.value.id == 'self'} if init is not None else set()
+            for n in ast.walk(fn):
+                if isinstance(n, ast.Call):
+                    for a in list(n.args) + [k.value for k in n.keywords]:
+                        if isinstance(a, ast.Constant) and isinstance(a.value, str) and a.value.startswith('_') \
+                                and a.value in init_attrs:
+                            out.setdefault(name, a.value)
     return out
 
 
